@@ -115,6 +115,82 @@ def busy_until_finished_statement : Prop :=
     (∀ q, Op.req q ∈ ops → busyReq cfg.rules q) →
     BusyUntilFinished idle cfg.rules (history cfg P idle ops)
 
+/-! ### `busy_until_finished`: the proved part
+
+The clause over histories (`busy_until_finished_statement`, requests atomic with respect to `cycle`) is not proved:
+it needs a second invariant (`engaged → busy status`, `not engaged → status = idle status`) carried through every
+definition like the coupling above.  Proved here is its local content: every assignment to `sm.status` that
+`start_machine`, `stop_machine` and `state_transition` make preserves that invariant — for all rules, states,
+pending tasks and status values. -/
+
+/-- the status rules keep to busy codes: attached status codes are busy, and `BUSY` itself is a busy code -/
+structure BusyRules (r : Rules) : Prop where
+  attached : ∀ s st, r.statusOf s = some st → isBusy r st = true
+  busy : r.busy < r.error
+
+theorem getStatus_busy {r : Rules} (hr : BusyRules r) (s : Sid) (d : Nat) (hd : r.busy ≤ d ∧ d < r.error) :
+    isBusy r (getStatus r s d) = true := by
+  unfold getStatus
+  cases h : r.statusOf s with
+  | some st => exact hr.attached s st h
+  | none => simp [isBusy, hd.1, hd.2]
+
+/-- `start_machine` assigns a busy status (any target state, machine active or not, a busy override or none) -/
+theorem busy_until_finished_partial_start {r : Rules} (hr : BusyRules r) (active : Bool) (s : Sid) (ovr : Option Status)
+    (hovr : ∀ st, ovr = some st → isBusy r st = true) : isBusy r (startStatus r active s ovr) = true := by
+  have hg := getStatus_busy hr s r.busy ⟨Nat.le_refl _, hr.busy⟩
+  unfold startStatus
+  cases ovr with
+  | some st => exact hovr st rfl
+  | none =>
+    cases active with
+    | false => exact hg
+    | true => simpa [isBusy] using hg
+
+/-- `stop_machine` keeps the status busy while the machine is still active -/
+theorem busy_until_finished_partial_stop {r : Rules} (hr : BusyRules r) (cur : Sid) (status : Status)
+    (hs : isBusy r status = true) : isBusy r (stopStatus r cur status) = true := by
+  have hd : r.busy ≤ status.1 ∧ status.1 < r.error := by simpa [isBusy] using hs
+  have hg := getStatus_busy hr cur status.1 hd
+  unfold stopStatus
+  simpa [isBusy] using hg
+
+/-- a transition after which the module is still engaged (a state is entered, or a start is waiting) assigns a busy
+status or leaves the (busy) status alone -/
+theorem busy_until_finished_partial_transition {r : Rules} (hr : BusyRules r) (status idle : Status) (p : Pending)
+    (ns : Option Sid) (hs : isBusy r status = true) (heng : ns.isSome = true ∨ ∃ s, p = .start s) (st : Status)
+    (h : transitionStatus r status idle p ns = some st) : isBusy r st = true := by
+  have hd : r.busy ≤ status.1 ∧ status.1 < r.error := by simpa [isBusy] using hs
+  unfold transitionStatus at h
+  cases ns with
+  | some s =>
+    cases hso : r.statusOf s with
+    | none => cases p <;> simp [hso] at h
+    | some st0 =>
+      have h0 := hr.attached s st0 hso
+      have hd0 : r.busy ≤ st0.1 ∧ st0.1 < r.error := by simpa [isBusy] using h0
+      cases p with
+      | none => simp [hso] at h; rw [← h]; exact h0
+      | stop => simp [hso] at h; rw [← h]; simp [isBusy, hd0.1, hd0.2]
+      | start s' =>
+        simp only [hso] at h
+        split at h
+        · simp at h; rw [← h]; exact hs
+        · simp at h; rw [← h]; simp [isBusy, hd.1, hd.2]
+  | none =>
+    rcases heng with hh | ⟨s', rfl⟩
+    · cases hh
+    · simp at h; rw [← h]; exact getStatus_busy hr s' r.busy ⟨Nat.le_refl _, hr.busy⟩
+
+/-- the transition that makes the module idle (machine inactive, no start waiting) assigns the final / stopped status -/
+theorem busy_until_finished_partial_final (r : Rules) (status idle : Status) (p : Pending)
+    (hp : ∀ s, p ≠ .start s) : transitionStatus r status idle p none = some idle := by
+  unfold transitionStatus
+  cases p with
+  | none => rfl
+  | stop => rfl
+  | start s => exact absurd rfl (hp s)
+
 /-! ### non-vacuity / concrete scenarios -/
 
 def rules0 : Rules :=
@@ -123,6 +199,15 @@ def rules0 : Rules :=
     busy := Frappy.Generated.C14.busyCode, error := Frappy.Generated.C14.errorCode }
 
 def cfg0 (hs : Bool) : Cfg := { maxloops := 2, hasStates := hs, rules := rules0 }
+
+/-- the hypotheses of the busy lemmas are met by rules with an attached busy status and states without one -/
+example : BusyRules rules0 := by
+  refine ⟨?_, by decide⟩
+  intro s st h
+  simp only [rules0] at h
+  split at h
+  · cases h; decide
+  · cases h
 
 /-- a program that retries once and then chains states for ever, with a cleanup that returns a state: the second
 cycle hits the loop limit twice -/
